@@ -605,6 +605,8 @@ func (r *rewriter) run() {
 				} else {
 					n.Fun = r.vrt("Sleep")
 				}
+			} else if r.calleeIs(n, "time", "After") {
+				n.Fun = r.vrt("After")
 			} else if r.isBuiltin(n, "close") && len(n.Args) == 1 {
 				n.Fun = r.vrt("Close")
 			}
